@@ -884,3 +884,23 @@ pub fn lax_packet_headers(cx: &mut Cx, p: &LaxPacketHeaders) {
     sl(cx, p.payload.slice(), "LaxPacketHeaders.payload");
     cx.calls(6);
 }
+
+pub fn ip_headers(cx: &mut Cx, h: &IpHeaders) {
+    dbg(h);
+    num(h.header_len() as u64);
+    dbg(&h.next_header());
+    num(h.is_fragmenting_payload() as u64);
+    num(h.ipv4().is_some() as u64 + 2 * h.ipv6().is_some() as u64);
+    match h {
+        IpHeaders::Ipv4(h, e) => {
+            raw(&h.to_bytes());
+            num(e.header_len() as u64);
+        }
+        IpHeaders::Ipv6(h, e) => {
+            raw(&h.to_bytes());
+            num(e.header_len() as u64);
+            dbg(&e.next_header(h.next_header));
+        }
+    }
+    cx.calls(7);
+}
